@@ -129,6 +129,12 @@ impl RollingReader {
         let directory = Directory::open(dir_path)?;
         let first_file = directory.first_file_number().clone();
         let mut file = directory.open_file(&first_file)?;
+        // A crash between the creation of a wal file and its sizing (see `create_file`)
+        // leaves an empty file behind. Finish sizing it, instead of failing on it at every
+        // subsequent open.
+        if file.metadata()?.len() == 0 {
+            file.set_len(FILE_NUM_BYTES as u64)?;
+        }
         let mut block = Box::new([0u8; BLOCK_NUM_BYTES]);
         file.read_exact(&mut *block)?;
         Ok(RollingReader {
